@@ -716,3 +716,26 @@ def chain_witnesses(lib, molecules):
             a, b = reach[k], reach[t]
             out.append((k, t, a + '.' + b, b + '.' + a, a, b))
     return out
+
+
+def chain_free_hypothesis(ctx, libs_, on_witness):
+    """ChainFree is a hypothesis of the scheme-layer theorems about the LIVE remap tables: check it on every loaded scheme.  Where
+    it fails, build mixtures in which the chain shows (`chain_witnesses` over the covering molecule set) and hand them to
+    `on_witness(name, lib, key, target, 'A.B', 'B.A', A, B)`, which runs the property's own oracle on them; if that reports
+    nothing, the broken hypothesis is reported without a failing input."""
+    from .lib_molcover import COVER_GAS, COVER_SURFACE
+    from . import lib_molgen as G
+    for name, lib in libs_:
+        chains = remap_chains(lib.scheme)
+        ctx.count('remap_tables_checked_chain_free')
+        if not chains:
+            continue
+        before = len(ctx.violations)
+        gas = name in ('BensonGA', 'PPY')
+        pool = list(COVER_GAS) + list(G.FIXED_GAS) if gas else list(COVER_SURFACE) + list(COVER_GAS) + list(G.FIXED_SURFACE)
+        pool += ['C[C]=CC', 'CC=[C]C', 'C=CC', 'CC(=O)C#C', 'CC(=O)C=C', 'C[CH]C', 'CC#C', 'Cc1ccccc1']
+        for k, t, ab, ba, a, b in chain_witnesses(lib, pool):
+            on_witness(name, lib, k, t, ab, ba, a, b)
+        if len(ctx.violations) == before:
+            ctx.broken.append({'kind': 'hypothesis', 'name': 'ChainFree(%s.remaps)' % name,
+                               'detail': 'remap targets that are themselves remapped: %r' % (chains[:4],)})
